@@ -42,7 +42,7 @@ def seeds(out, tier, seed, n_gen):
     liblex = lex(LIB)
     res = []
     # smallish generated programs first (BFS seeds must be small)
-    progs = sorted(rnd.sample(main, min(len(main), 400)), key=lambda c: len(c["out"]))
+    progs = sorted(main.sample(rnd, 400), key=lambda c: len(c["out"]))
     picks = progs[5:5 + n_gen // 2] + rnd.sample(progs[len(progs) // 2:], n_gen - n_gen // 2)
     for c in picks:
         l = [t["t"] for t in c["out"] if t["r"] not in ("open", "close") and t["t"]]
